@@ -26,6 +26,7 @@ type protoRun struct {
 	NewKeys []H   `json:",omitempty"` // resharing: new committee party keys
 	NewT    int   `json:",omitempty"`
 	Proofs  bool  `json:",omitempty"` // ECDSA resharing: mod/fac proofs on (production path)
+	BadXi   []int `json:",omitempty"` // positions in Members whose party runs with a wrong secret share (Xi+1)
 }
 
 func (p protoRun) edd() bool { return p.Proto[:5] == "eddsa" }
@@ -146,6 +147,9 @@ func (p protoRun) build() *runCtx {
 			keys = append(keys, deepCopyEC(data[i]))
 		}
 		x.digest = p.Msg.Big()
+		for _, b := range p.BadXi {
+			keys[b].Xi = add(keys[b].Xi, 1)
+		}
 		var kidx []int
 		x.net, x.ids, kidx = sim.NewSigning(sim.SignCfg{ECKeys: keys, T: p.Key.T, Msg: x.digest, FullBytesLen: -1})
 		x.pubX, x.pubY = data[0].ECDSAPub.X(), data[0].ECDSAPub.Y()
@@ -165,6 +169,9 @@ func (p protoRun) build() *runCtx {
 			keys = append(keys, deepCopyED(data[i]))
 		}
 		x.digest = p.Msg.Big()
+		for _, b := range p.BadXi {
+			keys[b].Xi = add(keys[b].Xi, 1)
+		}
 		var kidx []int
 		x.net, x.ids, kidx = sim.NewSigning(sim.SignCfg{EdDSA: true, EDKeys: keys, T: p.Key.T, Msg: x.digest, FullBytesLen: -1})
 		x.pubX, x.pubY = data[0].EDDSAPub.X(), data[0].EDDSAPub.Y()
@@ -184,6 +191,9 @@ func (p protoRun) build() *runCtx {
 			keys = append(keys, deepCopyEC(data[i]))
 		}
 		x.pre = preParams()[:len(p.NewKeys)]
+		for _, b := range p.BadXi {
+			keys[b].Xi = add(keys[b].Xi, 1)
+		}
 		var kidx []int
 		x.net, x.ids, x.newIDs, kidx = sim.NewResharing(sim.ReshareCfg{OldEC: keys, OldT: p.Key.T, NewKeys: bigs(p.NewKeys), NewT: p.NewT,
 			NewPre: x.pre, NoProofMod: !p.Proofs, NoProofFac: !p.Proofs})
@@ -207,6 +217,9 @@ func (p protoRun) build() *runCtx {
 		var keys []edkeygen.LocalPartySaveData
 		for _, i := range p.Members {
 			keys = append(keys, deepCopyED(data[i]))
+		}
+		for _, b := range p.BadXi {
+			keys[b].Xi = add(keys[b].Xi, 1)
 		}
 		var kidx []int
 		x.net, x.ids, x.newIDs, kidx = sim.NewResharing(sim.ReshareCfg{EdDSA: true, OldED: keys, OldT: p.Key.T, NewKeys: bigs(p.NewKeys), NewT: p.NewT})
